@@ -859,14 +859,75 @@ theorem Stable.window {P : Srv → Prop} (h : Stable P)
       · exact absurd (Or.inr (Or.inr (Or.inr hh))) hn
     exact h.deliver _ _ _ _ (h.run es _ (hx s _ hp hl))
 
-/-- an event at the server: an envelope, or a window around a protocol message -/
+theorem rwindow_not_panic (s : Srv) (to : Tok) (frm : Frm) (b : Body) (es : List Env) :
+    (rwindow s to frm b es).1 ≠ .panic := by
+  unfold rwindow
+  simp only
+  split
+  · exact c07_no_panic _ _
+  · simp
+
+/-- a predicate that every envelope keeps, and that does not look at the request counter and at the difference
+between an absent and a requested tree, is kept by the window of `requestTree` -/
+theorem Stable.rwindow {P : Srv → Prop} (h : Stable P)
+    (hx : ∀ s t, P s → P { s with slot := upd s.slot t (if s.slot t = .absent then .requested else s.slot t), asks := s.asks + 1 })
+    (s : Srv) (to : Tok) (frm : Frm) (b : Body) (es : List Env) (hp : P s) : P (rwindow s to frm b es).2 := by
+  unfold C07.rwindow
+  simp only
+  split
+  · exact h.process _ _ hp
+  · rename_i hn
+    have hs : s.slot (treeOf to) ≠ .present := by
+      intro e
+      exact hn (Or.inr (Or.inr (by rw [e]; simp)))
+    exact hx _ _ (h.run es _ (h.park s (treeOf to) (to, frm, b) hp hs rfl).1)
+
+theorem parkedClean_ask (s : Srv) (t : TRef) (h : ParkedClean s) :
+    ParkedClean { s with slot := upd s.slot t (if s.slot t = .absent then .requested else s.slot t), asks := s.asks + 1 } := by
+  intro x hx
+  apply h x
+  simp only [upd] at hx
+  split at hx
+  · rename_i e
+    subst e
+    split at hx
+    · cases hx
+    · exact hx
+  · exact hx
+
+/-- **a message is not lost in the window of `requestTree`**: held between `IsRegistered` and `Register` while
+any envelopes are handled, the message is afterwards still parked, or its tree has arrived (and the flush took it:
+`c07_quiescent_nothing_stuck`) -/
+theorem c07_rwindow_parked_not_lost (s : Srv) (to : Tok) (frm : Frm) (b : Body) (es : List Env)
+    (hg : b ≠ .garbage) (hn : to ≠ .none) (ha : s.slot (treeOf to) = .absent) :
+    let s' := (rwindow s to frm b es).2
+    (to, frm, b) ∈ s'.parked (treeOf to) ∨ s'.slot (treeOf to) = .present := by
+  have hc : ¬ (b = .garbage ∨ to = .none ∨ s.slot (treeOf to) ≠ .absent) := by
+    intro h
+    rcases h with h | h | h
+    · exact hg h
+    · exact hn h
+    · exact h ha
+  simp only [rwindow, hc, if_false]
+  have k := (stable_kept (to, frm, b) (treeOf to)).run es
+    { s with armed := upd s.armed (treeOf to) false,
+             parked := upd s.parked (treeOf to) (s.parked (treeOf to) ++ [(to, frm, b)]) }
+    (.inl (by simp [upd]))
+  rcases k with k | k
+  · exact .inl k
+  · right; simp [upd, k]
+
+/-- an event at the server: an envelope, a window around a protocol message whose tree is there (between the
+lookup and `transmitMux`), or around one whose tree is not (between `IsRegistered` and `Register`) -/
 inductive Ev where
   | env (e : Env)
   | win (to : Tok) (frm : Frm) (b : Body) (es : List Env)
+  | rwin (to : Tok) (frm : Frm) (b : Body) (es : List Env)
 
 def stepEv (s : Srv) : Ev → Out × Srv
   | .env e => process s e
   | .win to frm b es => window s to frm b es
+  | .rwin to frm b es => rwindow s to frm b es
 
 def runEvs (s : Srv) : List Ev → Srv
   | [] => s
@@ -891,6 +952,7 @@ theorem c07_quiescent_nothing_stuck (evs : List Ev) (s : Srv) (hc : ParkedClean 
     cases e with
     | env e => exact stable_parkedClean.process _ _ hc
     | win to frm b es => exact stable_parkedClean.window (fun s t h _ => parkedClean_expire s t h) _ _ _ _ _ hc
+    | rwin to frm b es => exact stable_parkedClean.rwindow (fun s t h => parkedClean_ask s t h) _ _ _ _ _ hc
 
 /-- no step of such a history panics, and the pending-tree lock is free after it -/
 theorem c07_windows_no_panic_locks_released (evs : List Ev) (s : Srv) (e : Ev) (h : s.treeLock = 0) :
@@ -899,6 +961,7 @@ theorem c07_windows_no_panic_locks_released (evs : List Ev) (s : Srv) (e : Ev) (
   · cases e with
     | env e => exact c07_no_panic _ _
     | win to frm b es => exact window_not_panic _ _ _ _ _
+    | rwin to frm b es => exact rwindow_not_panic _ _ _ _ _
   · induction evs generalizing s with
     | nil => exact h
     | cons e evs ih =>
@@ -906,6 +969,7 @@ theorem c07_windows_no_panic_locks_released (evs : List Ev) (s : Srv) (e : Ev) (
       cases e with
       | env e => exact stable_lock.process _ _ h
       | win to frm b es => exact stable_lock.window (fun _ _ h _ => h) _ _ _ _ _ h
+      | rwin to frm b es => exact stable_lock.rwindow (fun _ _ h => h) _ _ _ _ _ h
 
 /-- a window takes away only a tree that no instance uses: a tree in use stays through any such history -/
 theorem c07_window_keeps_used_trees (s : Srv) (to : Tok) (frm : Frm) (b : Body) (es : List Env) (x : TRef)
@@ -1189,6 +1253,11 @@ theorem c07_flush_locks_released_and_ordered (s : Srv) (l : List (Tok × Frm × 
 /-- the pinned code before repair 9b09732 ended a roster message with `pendingTreeLock` held -/
 theorem c07_old_locks_not_released :
     nest [] (lockTraceOld {} (.sendRoster ⟨.roR, true, true⟩)) = some [.pendingTree] := by decide
+
+/-- the handler held in the window of `requestTree` releases every lock, whatever happened in the window; a
+`Register` with an early return that forgets the store's mutex (seeded change C07r5-A) does not: the store stays
+locked and every later message blocks in `getAndRefresh` -/
+theorem c07_miss_window_locks : nest [] missTr = some [] ∧ nest [] missTrLeaky = some [.store] := by decide
 
 /-- the order is not vacuous: taking the instance list's lock while holding the store's mutex (the inverse of
 `cleanTreeStorage`'s nesting) is rejected, and so is taking a lock twice -/
